@@ -648,7 +648,14 @@ def doc_case(drv, rnd, cls=None, depth=2, mixed_chk=False, mutate=True, copy=Fal
                     w.attr(i, an.replace('-', '_'), near(v, rnd))
             elif r < 0.35:
                 tbl = ATTRS.get(type(o).__name__)
-                if tbl:
+                if tbl and rnd.random() < 0.15:
+                    # a name declared for some other element class: must be refused here (tables do not leak into each other)
+                    other = ATTRS.get(rnd.choice(ALL).__name__) or tbl
+                    an, tn, _ = rnd.choice(other)
+                    pool = valid_values(tn, rnd)
+                    w.attr(i, an.replace('-', '_'), rnd.choice(pool) if pool else 'x')
+                    w.getattr_(i, an.replace('-', '_'))
+                elif tbl:
                     an, tn, _ = rnd.choice(tbl)
                     pool = valid_values(tn, rnd)
                     v = rnd.choice([None] + (pool or [1]) + [rnd.choice(NUMS + STRS)] + ([near(rnd.choice(pool), rnd)] * 3 if pool else []))
